@@ -70,6 +70,9 @@ func VerifyFunction(P *Program, S *Specs, key string) (res *FuncResult) {
 		if r := recover(); r != nil {
 			if ee, ok := r.(*EngineError); ok {
 				res.Err = ee.Msg
+				if debugTrace {
+					res.Err += "\n" + string(debug.Stack())
+				}
 			} else {
 				res.Err = fmt.Sprintf("internal error: %v\n%s", r, debug.Stack())
 			}
